@@ -31,7 +31,8 @@ def driverLine (inp obs : List String) : Bool × Bool × String × String :=
 /-- `snie` (the same request, end to end through a real TLS server): the client sees a response (with the handler's view
     of `validated_server_name`) or a failed request; which of the two rejections it was is not visible from outside. -/
 def e2eLine (inp obs : List String) : Bool × Bool × String × String :=
-  match inp with
+  -- (an optional eighth token says whether the client offered ALPN: nothing to the model)
+  match inp.take 7 with
   | [h2, hh, hp, ah, ap, tls, sni] =>
     let r : Req := { h2 := h2 == "1", hostHdr := parseHost hh hp, authority := parseHost ah ap,
                      tls := if tls == "1" then some (parseHost sni "-") else none }
